@@ -114,26 +114,37 @@ pub fn read_all_pages(wal: &Wal) -> BTreeMap<(u64, u32), RpRes> {
     out
 }
 
-/// Runs the history on a fresh WAL directory and leaves the final segment files in `wal_dir`.
-pub fn execute(start_open: bool, ops: &[Op], wal_dir: &Path) -> ExecOut {
-    let mut out = ExecOut { model: Model::new(), ..Default::default() };
-    let first = guarded(|| if start_open { Wal::open(wal_dir) } else { Wal::create(wal_dir) });
-    let mut wal: Option<Wal> = match first {
-        Ok(Ok(w)) => Some(w),
-        Ok(Err(e)) => {
-            out.op_errs.push((0, "create".into(), clean_err(&e)));
-            return out;
-        }
-        Err(site) => {
-            out.panic = Some((0, "create".into(), site));
-            return out;
-        }
-    };
-    for (i, op) in ops.iter().enumerate() {
+/// The real `Wal` being driven through a history.
+pub struct Runner<'a> {
+    pub wal: Option<Wal>,
+    pub dir: &'a Path,
+}
+
+impl<'a> Runner<'a> {
+    pub fn start(start_open: bool, dir: &'a Path, out: &mut ExecOut) -> Runner<'a> {
+        let first = guarded(|| if start_open { Wal::open(dir) } else { Wal::create(dir) });
+        let wal = match first {
+            Ok(Ok(w)) => Some(w),
+            Ok(Err(e)) => {
+                out.op_errs.push((0, "create".into(), clean_err(&e)));
+                None
+            }
+            Err(site) => {
+                out.panic = Some((0, "create".into(), site));
+                None
+            }
+        };
+        Runner { wal, dir }
+    }
+
+    /// Executes op `i`; on success the model in `out` is advanced. Returns false when the
+    /// history cannot continue (error, panic).
+    pub fn step(&mut self, i: usize, op: &Op, out: &mut ExecOut) -> bool {
         let kind = op.kind().to_string();
-        let w = match wal.as_ref() {
+        let wal_dir = self.dir;
+        let w = match self.wal.as_ref() {
             Some(w) => w,
-            None => break,
+            None => return false,
         };
         let res: Result<eyre::Result<()>, String> = match op {
             Op::Write { file, page, db_size, tag } => {
@@ -161,14 +172,14 @@ pub fn execute(start_open: bool, ops: &[Op], wal_dir: &Path) -> ExecOut {
                 Ok(())
             }),
             Op::Reopen => {
-                let old = wal.take();
+                let old = self.wal.take();
                 let r = guarded(move || {
                     drop(old);
                     Wal::open(wal_dir)
                 });
                 match r {
                     Ok(Ok(nw)) => {
-                        wal = Some(nw);
+                        self.wal = Some(nw);
                         Ok(Ok(()))
                     }
                     Ok(Err(e)) => Ok(Err(e)),
@@ -182,32 +193,50 @@ pub fn execute(start_open: bool, ops: &[Op], wal_dir: &Path) -> ExecOut {
                     let exp = expected_reads(&out.model);
                     let obs = read_all_pages(w);
                     out.live_reads.push((i, out.model.shape_fields(), exp, obs));
-                    continue;
+                    return true;
                 }
                 r
             }
         };
         match res {
-            Ok(Ok(())) => out.model.apply(i, op),
+            Ok(Ok(())) => {
+                out.model.apply(i, op);
+                true
+            }
             Ok(Err(e)) => {
                 out.op_errs.push((i, kind, clean_err(&e)));
-                break;
+                false
             }
             Err(site) => {
                 out.panic = Some((i, kind, site));
                 // the instance may be half-updated: leak it rather than run more code on it
-                std::mem::forget(wal.take());
-                break;
+                std::mem::forget(self.wal.take());
+                false
             }
         }
     }
-    if let Some(w) = wal.take() {
-        if let Err(site) = guarded(move || drop(w)) {
-            if out.panic.is_none() {
-                out.panic = Some((ops.len(), "drop".into(), site));
+
+    pub fn finish(&mut self, n_ops: usize, out: &mut ExecOut) {
+        if let Some(w) = self.wal.take() {
+            if let Err(site) = guarded(move || drop(w)) {
+                if out.panic.is_none() {
+                    out.panic = Some((n_ops, "drop".into(), site));
+                }
             }
         }
     }
+}
+
+/// Runs the history on a fresh WAL directory and leaves the final segment files in `wal_dir`.
+pub fn execute(start_open: bool, ops: &[Op], wal_dir: &Path) -> ExecOut {
+    let mut out = ExecOut { model: Model::new(), ..Default::default() };
+    let mut r = Runner::start(start_open, wal_dir, &mut out);
+    for (i, op) in ops.iter().enumerate() {
+        if !r.step(i, op, &mut out) {
+            break;
+        }
+    }
+    r.finish(ops.len(), &mut out);
     out
 }
 
@@ -233,15 +262,36 @@ pub struct Recovered {
     pub reads: Option<BTreeMap<(u64, u32), RpRes>>,
 }
 
-fn fresh_storage(path: &Path, init_pages: u32) -> Option<MmapStorage> {
-    let mut st = MmapStorage::create(path, init_pages).ok()?;
-    for p in 0..init_pages {
-        let pg = st.page_mut(p).ok()?;
-        for b in pg.iter_mut() {
-            *b = BASE_BYTE;
+/// Storage files are reused between recoveries while their size is unchanged (mapping and
+/// unmapping a file per recovery dominated the run time): every page is reset to the sentinel.
+#[derive(Default)]
+pub struct StoragePool {
+    free: BTreeMap<u32, MmapStorage>,
+    serial: u64,
+}
+
+impl StoragePool {
+    fn take(&mut self, dir: &Path, init_pages: u32) -> Option<MmapStorage> {
+        let mut st = match self.free.remove(&init_pages) {
+            Some(s) => s,
+            None => {
+                self.serial += 1;
+                MmapStorage::create(dir.join(format!("recover-{}.tbd", self.serial)), init_pages).ok()?
+            }
+        };
+        for p in 0..init_pages {
+            let pg = st.page_mut(p).ok()?;
+            for b in pg.iter_mut() {
+                *b = BASE_BYTE;
+            }
+        }
+        Some(st)
+    }
+    fn give(&mut self, init_pages: u32, st: MmapStorage) {
+        if st.page_count() == init_pages {
+            self.free.insert(init_pages, st);
         }
     }
-    Some(st)
 }
 
 fn snapshot(st: &MmapStorage) -> Vec<Img> {
@@ -274,7 +324,7 @@ pub struct RecoverPlan {
 }
 
 /// `Wal::open` + every planned recovery entry point, each into its own fresh storage file.
-pub fn recover_dir(wal_dir: &Path, scratch: &Path, plan: &RecoverPlan) -> Result<Recovered, String> {
+pub fn recover_dir(wal_dir: &Path, scratch: &Path, plan: &RecoverPlan, pool: &mut StoragePool) -> Result<Recovered, String> {
     let mut rec = Recovered::default();
     let _ = std::fs::create_dir_all(scratch);
     let wal = match guarded(|| Wal::open(wal_dir)) {
@@ -289,8 +339,7 @@ pub fn recover_dir(wal_dir: &Path, scratch: &Path, plan: &RecoverPlan) -> Result
         }
     };
     let mut run = |api: &str, proj: Proj, f: &mut dyn FnMut(&mut MmapStorage) -> eyre::Result<u32>| -> Result<(), String> {
-        let path = scratch.join("recover.tbd");
-        let mut st = fresh_storage(&path, plan.init_pages).ok_or_else(|| "cannot create storage".to_string())?;
+        let mut st = pool.take(scratch, plan.init_pages).ok_or_else(|| "cannot create storage".to_string())?;
         let r = guarded(|| f(&mut st));
         let (result, panic) = match r {
             Ok(Ok(n)) => (Ok(n), None),
@@ -298,7 +347,7 @@ pub fn recover_dir(wal_dir: &Path, scratch: &Path, plan: &RecoverPlan) -> Result
             Err(site) => (Err("panic".into()), Some(site)),
         };
         let pages = snapshot(&st);
-        drop(st);
+        pool.give(plan.init_pages, st);
         rec.apis.push(ApiRes { api: api.to_string(), proj, result, panic, pages });
         Ok(())
     };
